@@ -571,7 +571,9 @@ fn random_run(rng: &mut Rng, prof: &Profile, sink: &mut Sink<QuantEngine>) {
         if t.dead {
             break;
         }
-        let kind = if chaos {
+        let kind = if rng.chance(0.015) {
+            7
+        } else if chaos {
             *rng.pick(&[0usize, 2, 4, 6, 6, 6])
         } else if focus == 19 {
             *rng.pick(&[0usize, 1, 2, 3, 4, 5, 5, 5])
@@ -659,6 +661,32 @@ fn random_run(rng: &mut Rng, prof: &Profile, sink: &mut Sink<QuantEngine>) {
                     if rng.chance(p_edit) {
                         gen_edit(rng, &mut t);
                     }
+                }
+            }
+            7 => {
+                // long-running panel activity between two conversions of the same input: a power-of-two-ish
+                // number of scale edits whose net effect is to forbid the sounding pitch class
+                let v = rng.uniform(1.0, 10.0) as f32;
+                t.push(Ev::Convert(v.to_bits()));
+                if let Some(p) = t.exec().prev() {
+                    let pc = p % 12;
+                    let d = (pc + 1 + rng.below(11) as u8) % 12;
+                    let e = (pc + 1 + rng.below(11) as u8) % 12;
+                    let n = rng.near_pow2(false);
+                    t.push(Ev::Allow(vec![d, e]));
+                    t.push(Ev::Forbid(vec![pc]));
+                    let mut i = 2;
+                    while i < n {
+                        // toggles of other classes; the scale never gets empty because e stays allowed
+                        if d != e {
+                            t.push(if i % 2 == 0 { Ev::Forbid(vec![d]) } else { Ev::Allow(vec![d]) });
+                        } else {
+                            t.push(Ev::Allow(vec![d]));
+                        }
+                        i += 1;
+                    }
+                    t.push(Ev::Convert(v.to_bits()));
+                    t.push(Ev::Convert((v + 0.001).to_bits()));
                 }
             }
             5 => {
